@@ -21,6 +21,7 @@ import ast
 import contextlib
 import io
 import os
+import re
 import sys
 
 from . import common as C
@@ -906,6 +907,7 @@ def run(ctx):
     terms, meta, fails = [], [], {}
     uncovered = []
     log_at = {}
+    oracle_runs = {}
 
     def add(t, info):
         terms.append(t)
@@ -1035,7 +1037,8 @@ def run(ctx):
             cfg = {} if rep == 0 else gen_config(rng)
             options = render_config(rng, cfg)
             inp = {'command': c.name, 'args': args, 'spec': spec, 'options': options}
-            oracle('command', inp, 'cli:%s' % c.name)
+            if oracle('command', inp, 'cli:%s' % c.name) is None and c.name in API_EQUIV:
+                oracle_runs[c.name] = oracle_runs.get(c.name, 0) + 1
             o = run_cli(options + c.name.split(' ') + args, bmc_of(inp).handle)
             if isinstance(o.exc, (AttributeError, TypeError)) and not o.requests():
                 resolved_ok = False
@@ -1246,14 +1249,56 @@ def run(ctx):
             v.found_input = False
             fails[key] = v
 
-    failing, errors = C.coq_cases('C20', 'Lib.Prog Model.Cli Model.CliApi Gen.CliTable Corr.C20', terms)
+    # Other checks regenerate coq/Gen/*.v for THEIR tree and rebuild concurrently; the case files and the
+    # evaluation below need the tables of THIS tree.  First try as is; when Coq reports stale / inconsistent
+    # libraries, re-validate the build and evaluate again, this time holding the build lock.
+    imports = 'Lib.Prog Model.Cli Model.CliApi Gen.CliTable Corr.C20'
+    dg_term = 'map ca_cmd (filter (fun e => negb (entry_translated call_specs e)) cli_api_spec)'
+    dg_imports = 'Lib.Prog Model.Cli Model.CliApi Gen.CliTable Proofs.CliProofs Proofs.CliApiProofs'
+
+    def tables_of_this_tree():
+        try:
+            return all(('from %s ' % C.REPO) in (C.COQ / 'Gen' / f).open().readline()
+                       for f in ('CliTable.v', 'Layouts.v'))
+        except OSError:
+            return False
+    failing, errors = C.coq_cases('C20', imports, terms)
+    dg_out = C.coq_eval('C20', dg_imports, dg_term)
+    stale = errors or not dg_out.strip().startswith('[') or not tables_of_this_tree()
+    for attempt in range(2):
+        if not stale:
+            break
+        with C.Lock():
+            gi = C.run_generators(GENS)
+            rc_b, out_b = C.make(['Corr/C20.vo', 'Proofs/CliApiProofs.vo'], timeout=900)
+            failing, errors = C.coq_cases('C20', imports, terms)
+            dg_out = C.coq_eval('C20', dg_imports, dg_term)
+        if rc_b != 0 or any(v['rc'] != 0 for v in gi.values()):
+            errors = list(errors) + [('rebuild', out_b[-1500:])]
+        stale = bool(errors) or not dg_out.strip().startswith('[')
     res.mismatches = [{'case': meta[i], 'term': terms[i][:1500]} for i in failing[:50]]
     res.corr_errors = errors
     res.evaluations += len(terms)
     res.distinct_nontrivial = D.distinct
     res.histogram = D.hist
     res.extra['ops_uncovered'] = uncovered
-    res.extra['same_request_by_theorem'] = [c.name for c in cmds if c.name in THEOREM_COVERED]
+    # downgrade rule of C20_same_request: entries whose operation the API translator refused in this run are
+    # not claimed by the theorem; the oracle above must have run and passed for them
+    out = dg_out
+    downgraded = re.findall(r'"([^"]*)"', out) if out.strip().startswith('[') else None
+    if downgraded is None:
+        downgraded = []
+        res.extra['same_request_downgrade_eval'] = out[-300:]
+        res.corr_errors = list(res.corr_errors) + [('downgrade-eval', out[-1500:])]
+    for nm in downgraded:
+        bad = [k for k in fails if k.startswith('cli:%s:' % nm)]
+        if oracle_runs.get(nm, 0) == 0 and not bad:
+            fails['same-request:%s:downgraded-without-oracle' % nm] = C.Violation(
+                key='same-request:%s:downgraded-without-oracle' % nm, found_input=False,
+                what='the API translator refused the operation of %r in this run and no oracle run decided it' % nm,
+                replay={'downgraded': nm})
+    res.extra['same_request_downgraded'] = downgraded
+    res.extra['same_request_by_theorem'] = [c.name for c in cmds if c.name in THEOREM_COVERED and c.name not in downgraded]
     res.extra['same_request_oracle_only'] = [c.name for c in cmds if c.name not in THEOREM_COVERED]
     res.rule = ('every COMMANDS entry x %d runs (argument vectors from the per-command grammar, numbers dec/hex where the tool '
                 'reads base 0; BMC contents varied: SDR sets incl. OEM records, SEL sizes, device support bits, chassis state; '
